@@ -221,7 +221,19 @@ def rule_secret_branches(S, res):
                 if "{closure:" in ty:
                     cdef = ty[ty.index("{closure:") + 9:-1]
                     for ck in fg.by_id.get(cdef, []):
-                        if (ck, 0, None) in sec_nodes or (ck, 0, "*") in sec_nodes:
+                        tainted = (ck, 0, None) in sec_nodes or (ck, 0, "*") in sec_nodes
+                        if tainted and tail in ("filter_map", "find_map", "flat_map", "flatten", "map_while"):
+                            # what passes is decided by the *variant* of the returned Option, not by its payload: a
+                            # secret payload handed on unchanged (`v.get(i).copied().flatten()`) keeps the pattern
+                            # public; only a branch on a secret inside the closure makes the variant secret
+                            cb = fg.bodies[ck]
+                            tainted = False
+                            for blk in cb.blocks:
+                                tt = blk["t"]
+                                if tt["k"] == "switch" and tt["o"]["k"] != "const" and any(x in sec_nodes for x in fg.operand_nodes(ck, tt["o"])):
+                                    if not any(st["k"] == "assign" and st["r"]["k"] == "discr" and st["p"]["l"] == tt["o"]["p"]["l"] for st in blk["s"]):
+                                        tainted = True
+                        if tainted:
                             bad += 1
                             res.bad("R7.2", "%s|%s" % (b.owner.replace("polytune::", ""), tail), "`%s` keeps or drops elements depending on secret data: the length of what is built (and sent) would depend on private values" % tail, where(b, bi))
     res.floor("secret_conditioned_branches", n_sw, 4)
